@@ -10,7 +10,7 @@
    (known/C12.json -> LWGen.KnownGen).  All arguments range over all of Z. *)
 From Coq Require Import List ZArith Bool String.
 From LW Require Import Base.Outcome Band.Types Band.Lookup Band.Regional Band.Rx1Spec Band.Rx1Checks Band.Rx1BaseProofs Band.Rx1Proofs.
-From LW Require Import Band.AddChannelProofs.
+From LW Require Import Band.AddChannelProofs Band.AliasProofs.
 From LWGen Require Import BandGen KnownGen.
 Import ListNotations.
 Open Scope Z_scope.
@@ -129,6 +129,22 @@ Print Assumptions C12_rx2_defaults.
 Theorem C12_regions_total : forall c, In c band_configs -> exists reg, region_of (c_name c) = Some reg.
 Proof. exact region_known. Qed.
 Print Assumptions C12_regions_total.
+
+(* the deprecated, still exported band names (AS_923, AU_915_928, CN_470_510, ... -
+   [deprecated_names]): what band.GetConfig returns for (deprecated name, repeater, dwell) is, in
+   every table and field but the name it was asked for, the configuration of the common name with
+   the same arguments - so every statement above holds for those objects too - and every
+   deprecated name x repeater x dwell time is among the dumped objects *)
+Theorem C12_deprecated_names : forall ac, In ac band_alias_configs ->
+  exists common c, In (c_name ac, common) deprecated_names /\ In c band_configs /\ c_name c = common
+                   /\ c_rep c = c_rep ac /\ c_dwell c = c_dwell ac /\ ac = with_name c (c_name ac).
+Proof. exact deprecated_name_same_band. Qed.
+Print Assumptions C12_deprecated_names.
+
+Theorem C12_deprecated_names_covered : forall name common rep dw, In (name, common) deprecated_names ->
+  exists ac, In ac band_alias_configs /\ c_name ac = name /\ c_rep ac = rep /\ c_dwell ac = dw.
+Proof. exact deprecated_names_covered. Qed.
+Print Assumptions C12_deprecated_names_covered.
 
 (* non-vacuity: the configurations exist, pairs are accepted, rejected and computed *)
 Example C12_example :
